@@ -33,6 +33,11 @@ MSM_SHAPES_T = MSM_SHAPES_Q + [
 def msm_shapes(tier):
     for sat, sig, cell in MSM_SHAPES_T if tier == "thorough" else MSM_SHAPES_Q:
         yield {"DF394": sat, "DF395": sig, "DF396": cell}
+    # the same satellite / signal masks again with MORE cells than the shape before them had
+    # (consecutive shapes are decoded in one process: state keyed without the cell mask shows)
+    yield {"DF394": 1 << 63, "DF395": 1 << 30, "DF396": 1}
+    yield {"DF394": (1 << 63) | (1 << 60) | 1, "DF395": (1 << 30) | (1 << 16), "DF396": 0b000001}
+    yield {"DF394": (1 << 63) | (1 << 60) | 1, "DF395": (1 << 30) | (1 << 16), "DF396": 0b111111}
 
 
 def _menu(key, width, depth, tier, shape, cond_keys):
